@@ -55,6 +55,9 @@ pub struct ItemSpec {
     /// kind = "local": the function that contains the `let <name> = <init>;` whose initializer is extracted as a const
     #[serde(rename = "fn")]
     pub in_fn: Option<String>,
+    /// kind = "impl_all": methods of the inherent impl(s) NOT to extract (e.g. generic serde wrappers)
+    #[serde(default)]
+    pub exclude: Vec<String>,
     /// kind = "trait_fn": bound of the `VerifSelf` type parameter that replaces `Self`
     pub self_bound: Option<String>,
     /// kind = "local": type of the emitted const
@@ -270,6 +273,24 @@ fn locate(src: &str, file: &syn::File, spec: &ItemSpec) -> Result<Found, Lost> {
                 }
             }
         }
+        "impls_of" => {
+            // every `impl <Trait> for <name>` of the file (possibly none): used to see whether a type gains a trait
+            let mut text = String::new();
+            let (mut l0, mut l1) = (0usize, 0usize);
+            for it in items {
+                if let syn::Item::Impl(im) = it {
+                    if im.trait_.is_some() && type_last_ident(&im.self_ty).as_deref() == Some(name.as_str()) {
+                        let sp = im.span();
+                        if l0 == 0 { l0 = sp.start().line; }
+                        l1 = sp.end().line;
+                        text.push_str(&src[range(sp)]);
+                        text.push('\n');
+                    }
+                }
+            }
+            if text.is_empty() { text.push_str("// (no trait impl for this type in the file)\n"); }
+            return Ok(Found { original: text.clone(), text, line_start: l0, line_end: l1 });
+        }
         "trait_fn" => {
             // a default method of a trait, emitted as a free generic function over `VerifSelf: <self_bound>`
             let tr = spec.trait_.clone().unwrap_or_default();
@@ -474,8 +495,42 @@ fn main() {
         let _ = writeln!(out, "proof fn prelude_consistency__canary() ensures false {{}}");
     }
 
-    let mut file_cache: BTreeMap<String, String> = BTreeMap::new();
+    // expand `impl_all`: every method of the inherent impl blocks of a type, so that a helper added later is extracted too
+    let mut expanded: Vec<ItemSpec> = Vec::new();
     for spec in &unit.items {
+        if spec.kind != "impl_all" {
+            expanded.push(spec.clone());
+            continue;
+        }
+        let src = std::fs::read_to_string(repo.join(&spec.file))
+            .unwrap_or_else(|e| die(&format!("anchor lost: cannot read {}: {e}", spec.file)));
+        let parsed = syn::parse_file(&src).unwrap_or_else(|e| die(&format!("cannot parse {}: {e}", spec.file)));
+        let items = find_in_items(&parsed.items, &spec.module).unwrap_or_else(|| die("module not found"));
+        let ty = spec.impl_of.clone().unwrap_or_default();
+        let mut n = 0;
+        for it in items {
+            if let syn::Item::Impl(im) = it {
+                if im.trait_.is_some() || type_last_ident(&im.self_ty).as_deref() != Some(ty.as_str()) { continue; }
+                for ii in &im.items {
+                    if let syn::ImplItem::Fn(m) = ii {
+                        let name = m.sig.ident.to_string();
+                        let listed = unit.items.iter().any(|o| o.kind == "method" && o.impl_of.as_deref() == Some(ty.as_str()) && o.name.as_deref() == Some(name.as_str()) && o.file == spec.file);
+                        if spec.exclude.contains(&name) || listed { continue; }
+                        let mut one = spec.clone();
+                        one.kind = "method".into();
+                        one.name = Some(name);
+                        expanded.push(one);
+                        n += 1;
+                    }
+                }
+            }
+        }
+        if n == 0 && !unit.items.iter().any(|o| o.kind == "method" && o.impl_of.as_deref() == Some(ty.as_str())) {
+            die(&format!("anchor lost: no inherent impl of `{ty}` in {}", spec.file));
+        }
+    }
+    let mut file_cache: BTreeMap<String, String> = BTreeMap::new();
+    for spec in &expanded {
         let id = item_id(spec);
         let path: &Path = &repo.join(&spec.file);
         let src = file_cache
